@@ -141,6 +141,12 @@ def run(case, kind, seed=0, vec_limit=48, out_of_range=False, check_enum=True, e
     def fail(clause, detail):
         fails.append({'clause': clause, 'detail': detail})
 
+    def exc_sig(ex):
+        """exception signature that goes into the clause: class + first words of the message without numbers"""
+        import re
+        words = re.sub(r'[^A-Za-z ]', ' ', str(ex)).split()[:4]
+        return '%s:%s' % (type(ex).__name__, '-'.join(words))
+
     try:
         b = dsgcase.build(case)
     except Exception as e:
@@ -159,9 +165,9 @@ def run(case, kind, seed=0, vec_limit=48, out_of_range=False, check_enum=True, e
         free = gp.des_vars
     except Exception as e:
         if adm:
-            fail('construction-fails-on-feasible-space', '%s: %s (model admits %d)' % (type(e).__name__, e, len(adm)))
+            fail('construction-fails-on-feasible-space:' + exc_sig(e), '%s: %s (model admits %d)' % (type(e).__name__, e, len(adm)))
         elif not isinstance(e, (ValueError, RuntimeError)):
-            fail('no-explicit-error-on-empty-space', '%s: %s' % (type(e).__name__, e))
+            fail('no-explicit-error-on-empty-space:' + exc_sig(e), '%s: %s' % (type(e).__name__, e))
         tags.append('construction-error')
         return {'fails': fails, 'tags': tags, 'nontrivial': False, 'impl': {'error': type(e).__name__}}
     if not adm:
@@ -172,6 +178,8 @@ def run(case, kind, seed=0, vec_limit=48, out_of_range=False, check_enum=True, e
                 fail('decodes-although-no-architecture-is-admissible', 'nodes %s' % (observe_instance(b, r[0])[0],))
         except (ValueError, RuntimeError):
             pass
+        except Exception as e:
+            fail('no-explicit-error-on-empty-space:' + exc_sig(e), '%s: %s' % (type(e).__name__, e))
         tags.append('empty-space')
         return {'fails': fails, 'tags': tags, 'nontrivial': False, 'impl': {}}
     E, Esx = encoding_of(b, gp)
@@ -225,7 +233,7 @@ def run(case, kind, seed=0, vec_limit=48, out_of_range=False, check_enum=True, e
                 if not e[3] and any(r[i] == -1 for r in rows_m):
                     fail('unflagged-variable-inactive-in-valid-design', 'variable %d %s' % (i, list(e[:2])))
         except Exception as ex:
-            fail('enumeration-raises', '%s: %s' % (type(ex).__name__, ex))
+            fail('enumeration-raises:' + exc_sig(ex), '%s: %s' % (type(ex).__name__, ex))
 
     # ---- decodes
     vecs, exhaustive = vectors_for(rng, E, vec_limit, out_of_range)
@@ -251,7 +259,7 @@ def run(case, kind, seed=0, vec_limit=48, out_of_range=False, check_enum=True, e
         try:
             inst, x2, act = gp.get_graph(list(x))
         except Exception as ex:
-            fail('decode-raises-on-feasible-space', 'x=%s: %s: %s' % (x, type(ex).__name__, ex))
+            fail('decode-raises-on-feasible-space:' + exc_sig(ex), 'x=%s: %s: %s' % (x, type(ex).__name__, ex))
             continue
         n_dec += 1
         x2 = [float(v) if isinstance(v, float) else int(v) for v in x2]
@@ -283,7 +291,7 @@ def run(case, kind, seed=0, vec_limit=48, out_of_range=False, check_enum=True, e
             if x4 != x2 or [bool(a) for a in act4] != act or n4 != nodes or d4 != dvv:
                 fail('decode-not-idempotent', 'x=%s x\'=%s act=%s -> x\'\'=%s act=%s' % (x, x2, act, x4, list(act4)))
         except Exception as ex:
-            fail('decode-raises-on-feasible-space', 'x=%s (second decode): %s: %s' % (x, type(ex).__name__, ex))
+            fail('decode-raises-on-feasible-space:' + exc_sig(ex), 'x=%s (second decode): %s: %s' % (x, type(ex).__name__, ex))
     wres = run_dsgm(dq) if dq else []
     for k, (x, x2, act, nodes, dvv) in enumerate(dinfo):
         w0, w1 = wres[2 * k], wres[2 * k + 1]
